@@ -250,8 +250,8 @@ fn apply(b: Builder, op: &BOp, live: &mut Live) -> Result<Builder, reval::Error>
 /// What the statement demands of one call, given the accepted prefix.
 enum Expect {
     Accept,
-    /// refusal of this class carrying this name
-    Refuse(&'static str, String),
+    /// refusal carrying one of these (class, name) pairs — a batch may have several offenders
+    Refuse(Vec<(&'static str, String)>),
     /// a don't-care name: either way, but a refusal must carry the name
     Either(String),
 }
@@ -260,32 +260,49 @@ fn expect(m: &Model, op: &BOp) -> Expect {
     match op {
         BOp::Rule(n, _) => {
             if m.rules.iter().any(|(r, _)| r == n) {
-                Expect::Refuse("DuplicateRuleName", n.clone())
+                Expect::Refuse(vec![("DuplicateRuleName", n.clone())])
             } else {
                 Expect::Accept
             }
         }
         BOp::Rules(v) => {
-            let mut seen: Vec<&str> = m.rules.iter().map(|(r, _)| r.as_str()).collect();
-            for (n, _) in v {
-                if seen.contains(&n.as_str()) {
-                    return Expect::Refuse("DuplicateRuleName", n.clone());
+            // every name that exists already or occurs twice in the batch is an offender;
+            // which of several offenders a refusal names is not fixed by the statement
+            let mut offenders = vec![];
+            for (i, (n, _)) in v.iter().enumerate() {
+                let dup = m.rules.iter().any(|(r, _)| r == n) || v[..i].iter().any(|(o, _)| o == n);
+                if dup && !offenders.iter().any(|(_, o): &(&str, String)| o == n) {
+                    offenders.push(("DuplicateRuleName", n.clone()));
                 }
-                seen.push(n);
             }
-            Expect::Accept
+            if offenders.is_empty() {
+                Expect::Accept
+            } else {
+                Expect::Refuse(offenders)
+            }
         }
         BOp::Func(n, _) => expect_fn(&m.functions.keys().cloned().collect::<Vec<_>>(), n),
         BOp::Funcs(v) => {
             let mut seen: Vec<String> = m.functions.keys().cloned().collect();
+            let mut offenders = vec![];
+            let mut dontcare = None;
             for (n, _) in v {
                 match expect_fn(&seen, n) {
                     Expect::Accept => seen.push(n.clone()),
-                    // a don't-care name inside a list: the rest of the list is undetermined too
-                    other => return other,
+                    Expect::Refuse(mut o) => offenders.append(&mut o),
+                    Expect::Either(n) => {
+                        dontcare.get_or_insert(n);
+                    }
                 }
             }
-            Expect::Accept
+            if let Some(n) = dontcare {
+                // a don't-care name inside a list leaves the whole call undetermined
+                Expect::Either(n)
+            } else if offenders.is_empty() {
+                Expect::Accept
+            } else {
+                Expect::Refuse(offenders)
+            }
         }
         BOp::Symbol(..) | BOp::Symbols(..) => Expect::Accept,
     }
@@ -293,17 +310,17 @@ fn expect(m: &Model, op: &BOp) -> Expect {
 
 fn expect_fn(present: &[String], n: &str) -> Expect {
     match classify(n) {
-        NameClass::Reserved | NameClass::MustRefuse => Expect::Refuse("InvalidFunctionName", n.to_string()),
+        NameClass::Reserved | NameClass::MustRefuse => Expect::Refuse(vec![("InvalidFunctionName", n.to_string())]),
         NameClass::MustAccept => {
             if present.iter().any(|p| p == n) {
-                Expect::Refuse("DuplicateFunctionName", n.to_string())
+                Expect::Refuse(vec![("DuplicateFunctionName", n.to_string())])
             } else {
                 Expect::Accept
             }
         }
         NameClass::DontCare => {
             if present.iter().any(|p| p == n) {
-                Expect::Refuse("DuplicateFunctionName", n.to_string())
+                Expect::Refuse(vec![("DuplicateFunctionName", n.to_string())])
             } else {
                 Expect::Either(n.to_string())
             }
@@ -368,7 +385,8 @@ pub fn check(h: &History, c: &mut Counters) -> Verdict {
                         accepted.push(op.clone());
                         sig = combine(sig, 1);
                     }
-                    Expect::Refuse(class, name) => {
+                    Expect::Refuse(offenders) => {
+                        let (class, name) = offenders[0].clone();
                         let clause = match class {
                             "DuplicateRuleName" => "duplicate-rule-accepted",
                             "DuplicateFunctionName" => "duplicate-function-accepted",
@@ -392,18 +410,21 @@ pub fn check(h: &History, c: &mut Counters) -> Verdict {
                             format!("{} | refused with {es:?} after {} accepted calls although nothing of that name was added before and the name is a well-formed identifier", describe(op), accepted.len()),
                         );
                     }
-                    Expect::Refuse(class, name) => {
-                        if es.payload.first() != Some(&name) {
+                    Expect::Refuse(offenders) => {
+                        let Some((class, name)) = offenders.iter().find(|(_, n)| es.payload.first() == Some(n)).cloned() else {
                             return Verdict::violation(
                                 "refusal-reports-other-name",
-                                format!("{} | refused with {es:?}; the offending name is {name:?}", describe(op)),
+                                format!("{} | refused with {es:?}; the offending name(s): {:?}", describe(op), offenders.iter().map(|o| &o.1).collect::<Vec<_>>()),
                             );
-                        }
+                        };
                         if es.class != class {
                             return Verdict::violation(
                                 "refusal-of-wrong-kind",
                                 format!("{} | refused with {es:?}; expected {class}({name:?})", describe(op)),
                             );
+                        }
+                        if offenders.len() > 1 {
+                            c.bump("hit.batch_with_several_offenders");
                         }
                         c.bump(&format!("hit.refused.{class}"));
                         if RESERVED.contains(&name.as_str()) {
